@@ -195,6 +195,7 @@ def main():
         st.shape = sub.get('shape', {})
         st.weights_mode = sub.get('weights', job.get('weights', 'distinct'))
         before = (st.truncated, st.aborted, st.paths)
+        cpu0 = time.process_time()
         opts = AnalysisOptionSet(analysis_kind=[AnalysisKind.PEP316],
                                  per_condition_timeout=min(float(sub.get('timeout', total_budget)), remaining),
                                  per_path_timeout=float(job.get('path_timeout', 30)),
@@ -217,7 +218,8 @@ def main():
             v = 'confirmed'
         else:
             v = 'inconclusive'
-        d = {'name': sub['name'], 'verdict': v, 'states': sorted(states), 'paths': st.paths - before[2]}
+        d = {'name': sub['name'], 'verdict': v, 'states': sorted(states), 'paths': st.paths - before[2],
+             'cpu_s': round(time.process_time() - cpu0, 1)}
         if v in ('error', 'pre_unsat'):
             d['messages'] = msgs
         st.subs_done.append(d)
@@ -250,6 +252,8 @@ def _finish(st, stats, subs, out_path, t0):
         'analyses': len(subs), 'analyses_confirmed': vs.count('confirmed'),
         'analyses_inconclusive': [d['name'] for d in st.subs_done if d['verdict'] == 'inconclusive'][:20]
         + [s['name'] for s in subs[len(st.subs_done):]][:20] if verdict != 'refuted' else [],
+        'heaviest': sorted(({'name': d['name'], 'paths': d.get('paths'), 'cpu_s': d.get('cpu_s')} for d in st.subs_done
+                            if d.get('cpu_s') is not None), key=lambda d: -d['cpu_s'])[:3],
         'paths': st.paths, 'ok_paths': st.ok_paths, 'truncated': st.truncated, 'aborted': st.aborted,
         'abort_samples': st.abort_samples,
         'goal_counts': dict(st.goal_counts), 'nontrivial_paths': st.nontrivial,
